@@ -1,4 +1,4 @@
-package main
+package main_test
 
 // Views over the bias reports in a response (`biases[i].props`).
 
